@@ -558,6 +558,7 @@ func runC10(c *Ctx) {
 	}
 	runOSCacheLayer(c)
 	runC10Subsecond(c)
+	runC10OddBases(c)
 	// modification times far outside the usual range (the zero time.Time of filesystems without
 	// timestamps, the 17th and the 31st century): the copy carries the base's time, whatever it is
 	for xi, stack := range cacheStacks {
@@ -1038,6 +1039,76 @@ func runC11(c *Ctx) {
 
 // modification times that differ by less than a second (oracle only: the item language and the
 // model count whole seconds): an expired copy with a base that is newer by 1 ns .. 999 ms is stale
+// Two configurations the generated histories do not reach (oracle only): a base behind the
+// read-only wrapper the documentation recommends (it refuses every open with a write bit), read
+// through Open, OpenFile(O_RDONLY) and ReadFile; and, with duration zero, a base file that GREW
+// behind the cache, read to the end through a read-write handle ("served from the cache for ever,
+// whatever later happens to the base").
+func runC10OddBases(c *Ctx) {
+	n := 0
+	readAll := func(u afero.Fs, how string) ([]byte, error) {
+		switch how {
+		case "ReadFile":
+			return afero.ReadFile(u, "/d/f")
+		case "Open":
+			h, err := u.Open("/d/f")
+			if err != nil {
+				return nil, err
+			}
+			defer h.Close()
+			return io.ReadAll(h)
+		}
+		fl := os.O_RDONLY
+		if how == "OpenFile-rdwr" {
+			fl = os.O_RDWR
+		}
+		h, err := u.OpenFile("/d/f", fl, 0)
+		if err != nil {
+			return nil, err
+		}
+		defer h.Close()
+		return io.ReadAll(h)
+	}
+	for _, dur := range []time.Duration{0, time.Hour} {
+		for _, how := range []string{"ReadFile", "Open", "OpenFile-rdonly"} {
+			n++
+			c.Count("oddbase.readonly-base")
+			mem, layer := afero.NewMemMapFs(), afero.NewMemMapFs()
+			afero.WriteFile(mem, "/d/f", []byte("from the base"), 0o644)
+			old := time.Now().Add(-3 * time.Hour).Truncate(time.Second)
+			mem.Chtimes("/d/f", old, old)
+			u := afero.NewCacheOnReadFs(afero.NewReadOnlyFs(mem), layer, dur)
+			got, err := readAll(u, how)
+			if err != nil || string(got) != "from the base" {
+				c.Oracle("FAIL ob%d first-read:read-only-base %s of an uncached file through a cache (duration %v) whose base is ReadOnlyFs(MemMapFs) = %q, %v; the base holds %q", n, how, dur, got, err, "from the base")
+				continue
+			}
+			if b, err := afero.ReadFile(layer, "/d/f"); err != nil || string(b) != "from the base" {
+				c.Oracle("FAIL ob%d cache-copy-differs:read-only-base after %s the layer holds %q, %v", n, how, b, err)
+			}
+		}
+	}
+	for _, how := range []string{"ReadFile", "Open", "OpenFile-rdonly", "OpenFile-rdwr"} {
+		for _, grown := range []string{"abcDEFGH", "abXDEFGH", "a"} {
+			n++
+			c.Count("oddbase.base-changed-behind")
+			base, layer := afero.NewMemMapFs(), afero.NewMemMapFs()
+			afero.WriteFile(base, "/d/f", []byte("abc"), 0o644)
+			u := afero.NewCacheOnReadFs(base, layer, 0)
+			if got, err := afero.ReadFile(u, "/d/f"); err != nil || string(got) != "abc" {
+				c.Oracle("FAIL ob%d first-read:base-changed-behind ReadFile = %q, %v", n, got, err)
+				continue
+			}
+			afero.WriteFile(base, "/d/f", []byte(grown), 0o644)
+			got, err := readAll(u, how)
+			if err != nil || string(got) != "abc" {
+				c.Oracle("FAIL ob%d zero-duration-not-served-from-cache:%s duration 0, cached copy \"abc\", the base rewritten directly to %q: %s through the cache = %q, %v", n, how, grown, how, got, err)
+			}
+		}
+	}
+	c.Extra["odd_bases"] = fmt.Sprintf("%d reads: base behind ReadOnlyFs (Open, OpenFile(O_RDONLY), ReadFile; durations 0 and 1h); duration 0 with the base rewritten longer/shorter behind the cache, read to the end through read-only and read-write handles (oracle only)", n)
+}
+
 func runC10Subsecond(c *Ctx) {
 	n := 0
 	// ... and by more than an hour, which puts the base's time stamp AHEAD of the clock (a base
